@@ -77,9 +77,11 @@ class Siblings:
             cfg["tag_scope"] = rng.choice(["default", "global", "branch"])
         if rng.random() < 0.5:
             cfg["commit_message"] = rng.choice(["bump {old_version} -> {new_version}", "release {new_version}",
-                                                "chore: version {new_version_pep440} (was {old_version_pep440})"])
+                                                "chore: version {new_version_pep440} (was {old_version_pep440})",
+                                                "release {new_version} #minor [skip ci]", "bump; {new_version} ; done",
+                                                "v{new_version} 100% = ok: yes"])
         if rng.random() < 0.5:
-            cfg["tag_message"] = rng.choice(["rel {new_version}", "{new_version}", ""])
+            cfg["tag_message"] = rng.choice(["rel {new_version}", "{new_version}", "", "tag {new_version} # stable", "a;b {new_version}"])
         if rng.random() < 0.3:
             cfg["pre_commit_hook"] = "pre.sh"
         if rng.random() < 0.3:
